@@ -376,10 +376,13 @@ class Sim(object):
                     "max_retry = %d" % sp["max_retry"], "send_hup = %s" % sp["send_hup"], ""]
         return "\n".join(out)
 
-    def write_file(self, specs):
+    def write_file(self, specs, check_delay=None):
+        """check_delay: what the file's [circus] section says from now on (None = what the arbiter was booted with);
+        a [circus] section that differs from the boot-time one makes every reloadconfig restart everything"""
         self.file_specs = [dict(WATCHER_DEFAULTS, **dict({"ver": 1}, **sp)) for sp in specs]
+        self.file_check_delay = self.check_delay if check_delay is None else check_delay
         with open(self.config_file, "w") as fh:
-            fh.write(self.render_ini(self.file_specs, self.check_delay, self.warmup_delay))
+            fh.write(self.render_ini(self.file_specs, self.file_check_delay, self.warmup_delay))
 
     def file_records(self):
         return [self._spec_record(sp) for sp in (self.file_specs or [])]
@@ -828,6 +831,8 @@ class Sim(object):
         q["adduid"] = "none" if ouid is None else ("owner" if self.endpoint_owner is not None and ouid == self.endpoint_owner
                                                    else "other")
         q["file"] = self.file_records() if cmd == "reloadconfig" else []
+        q["arbchg"] = bool(cmd == "reloadconfig" and self.file_mode
+                           and getattr(self, "file_check_delay", self.check_delay) != self.check_delay)
         q["matches"] = []
         if q["pattern"]:
             import fnmatch
